@@ -39,12 +39,11 @@ ASSUMPTIONS = ['default registry (no user registrations): C13 covers registratio
 # PathAccessError on the read-back, the Assign having set an attribute on the ChainMap object)
 S_FIRST_PLAIN_P = M.S_FIRST_PLAIN_P
 
-# Read an S-rooted path back THROUGH a wildcard?  On the current tree a wildcard in an S-rooted path
-# that is evaluated applies the rest of the path to the scope, not to the entries
-# (`glom({}, S['e'].__star__(), scope={'e': [1, 2]})` is two ChainMaps — `_t_eval` keeps the root S for
-# the recursive call; reported as a potential genuine defect).  False: such a read-back is cut in front
-# of the first wildcard.
-S_STAR_READBACK = False
+# Read an S-rooted path back THROUGH a wildcard?  (Repaired defect 62e884e: before it a wildcard in an
+# S-rooted path that is evaluated applied the rest of the path to the scope, not to the entries —
+# `glom({}, S['e'].__star__(), scope={'e': [1, 2]})` was two ChainMaps; False cuts such a read-back in
+# front of the first wildcard.)
+S_STAR_READBACK = True
 
 MISSING = [None] * 8 + ['dict'] * 5 + ['list', 'obj', 'obj', 'raise']
 
@@ -87,11 +86,20 @@ def one_case(rng, tier, classes, cflags, force=None):
     force = force or {}
     if rng.random() < force.get('deep_star_p', 0.04):
         heap, root, steps = M.gen_star_case(rng, present=rng.random() < 0.8)
-        style = M.choose_style(rng, steps, False)
-        return {'classes': classes, 'cflags': [f for f in cflags if f[0] != 'Scope'], 'heap': heap,
-                'target': root, 'scope': None, 'root': 'T', 'spelling': M.spell(rng, steps, style),
+        scope = None
+        sroot = rng.random() < 0.4
+        if sroot:
+            # the same regular target as a scope variable: S['d'].*.*…  (the wildcards below the variable)
+            heap.append({'k': 'dict', 'c': 'Scope', 'v': [[{'s': 'd'}, root]]})
+            scope = {'r': len(heap) - 1}
+            steps = [('key', {'s': 'd'})] + steps
+        style = M.choose_style(rng, steps, sroot)
+        sp = M.spell(rng, steps, style)
+        return {'classes': classes, 'cflags': cflags if sroot else [f for f in cflags if f[0] != 'Scope'], 'heap': heap,
+                'target': root, 'scope': scope, 'root': 'S' if sroot else 'T',
+                'spelling': M.s_first(rng, sp, S_FIRST_PLAIN_P) if sroot else sp,
                 'style': style, 'value': {'lit': M.jval(rng.choice([42, 'new', None]))}, 'missing': rng.choice([None, None, 'dict']),
-                'readback': gen_readback(rng, steps, style, force.get('chain_p', 0.3)),
+                'readback': gen_readback(rng, steps, style, force.get('chain_p', 0.8 if sroot else 0.3), sroot),
                 'api': rng.choice(['assign', 'Assign'])}
     maxlen = 5 if tier == 'quick' else 8
     heap, root = M.gen_target(rng, rng.choice([2, 3, 4]))
@@ -112,7 +120,7 @@ def one_case(rng, tier, classes, cflags, force=None):
     # (an S-rooted destination whose absent tail starts with `*` would enumerate — and write into —
     # glom's own scope maps, including the process-global default scope: never generated)
     steps = M.gen_dest(rng, heap, start, maxlen, want_present=rng.random() < 0.5, absent_tail=absent,
-                       star_p=0 if (sroot and missing) else force.get('star_p', 0.15),
+                       star_p=0 if (sroot and missing) else force.get('star_p', 0.3 if sroot else 0.15),
                        first_absent_p=0.4 if sroot else 0.15)
     if sroot and steps and steps[0][0] != 'key':
         steps[0] = ('key', {'s': 'd'})
